@@ -1689,7 +1689,27 @@ func init() {
 						continue
 					}
 					n++
+					// an unexported helper of the teardown (the function running one cleanup) is entered by the teardown
+					// itself: the obligation moves to the unexported function calling it, up to the one nobody calls
 					sites := an.CallSitesOf(c, fn)
+					for hops := 0; hops < 3 && len(sites) > 0; hops++ {
+						up := map[*ssa.Function]bool{}
+						movable := true
+						for _, cs := range sites {
+							p := an.Outermost(cs.Parent())
+							if core.RelPkg(p) != "pkg/f1/testing" || token.IsExported(p.Name()) || p == fn {
+								movable = false
+							}
+							up[p] = true
+						}
+						if !movable || len(up) != 1 {
+							break
+						}
+						for p := range up {
+							fn = p
+						}
+						sites = an.CallSitesOf(c, fn)
+					}
 					for _, cs := range sites {
 						r.Violation(core.FuncName(cs.Parent())+"#enters-teardown", an.Pos(c, cs), "%s switches the handle into its tearing-down phase by calling %s directly: a failure or panic of the body after this point is booked as a teardown failure and the iteration is reported as passed", core.FuncName(cs.Parent()), core.FuncName(fn))
 					}
